@@ -14,7 +14,8 @@ import cell_type_mapper
 
 ENDINGS = ['success', 'missing marker file', 'missing query file',
            'negative raw counts', 'unusable root markers', 'worker failure',
-           'environment failure', 'drop unknown level', 'bad normalization']
+           'environment failure', 'drop unknown level', 'bad normalization',
+           'results already stored in the query']
 
 
 def h_cloud(ctx, case):
@@ -60,6 +61,18 @@ def h_cloud(ctx, case):
         cfg['drop_level'] = 'nope'
     elif end == 'bad normalization':
         cfg['type_assignment']['normalization'] = 'log10'
+    elif end == 'results already stored in the query':
+        # an earlier run stored its results in the query file under the
+        # same key; this one may not overwrite them
+        cfg['obsm_key'] = 'cdm_mapping'
+        cfg['obsm_clobber'] = False
+        first = ST.run(dict(cfg), faults=False)
+        ctx.check(first['raised'] is None, 'first run with obsm_key '
+                  'succeeds: ' + str(first['raised'])[:80])
+        for k in ('csv_result_path', 'extended_result_path', 'log_path',
+                  'hdf5_result_path'):
+            if cfg[k] and os.path.exists(cfg[k]):
+                os.unlink(cfg[k])
     try:
         res = ST.run(cfg, faults=faults, fault_modes=['before', 'raise_at'])
     except FileNotFoundError as e:
